@@ -24,21 +24,22 @@ def run(rep, prop, tier):
     if not ok:
         rep.machinery_failure("SANY rejects XpmAdopt: " + out[-400:])
         return
-    mc = tlc.tlc("XpmAdopt.tla", "MC_Adopt.cfg", workers=1, timeout=600)
-    rep.add_tlc("MC_Adopt", mc, "every interleaving of the scheduler's accesses (marker, pid file, process table, wait, marker) with the orphan's last steps")
+    mc = tlc.tlc("XpmAdopt.tla", "MC_Adopt_launching.cfg", workers=1, timeout=600)
+    rep.add_tlc("MC_Adopt_launching", mc, "every interleaving of the scheduler's accesses (marker, pid file, process table, wait, marker) with the last steps "
+                                          "of the orphan, or with another scheduler that is launching the job (pid file absent, empty, written)")
     if mc.violation:
-        rep.violation(f"{prop}/model/adopt/{mc.violation[1]}", f"TLC: {mc.violation} in MC_Adopt", {"tlc_tail": mc.out[-2000:]})
+        rep.violation(f"{prop}/model/adopt/{mc.violation[1]}", f"TLC: {mc.violation} in MC_Adopt_launching", {"tlc_tail": mc.out[-2000:]})
         return
     if mc.error:
-        rep.machinery_failure("TLC failed on MC_Adopt: " + str(mc.error))
+        rep.machinery_failure("TLC failed on MC_Adopt_launching: " + str(mc.error))
         return
-    for cfg, inv in (("MC_Adopt_nosecond.cfg", "NoRelaunchOfSuccess"), ("MC_Adopt_unguarded.cfg", "NoCrash")):
+    for cfg, inv in (("MC_Adopt_nosecond.cfg", "NoRelaunchOfSuccess"), ("MC_Adopt_unguarded.cfg", "NoCrash"), ("MC_Adopt_launching_unguarded.cfg", "NoCrash")):
         r = tlc.tlc("XpmAdopt.tla", cfg, workers=1, timeout=600)
         rep.add_tlc(cfg[:-4], r, f"deviation kept as a constant: {inv} must fail (the invariant is not vacuous)")
         if not (r.violation and r.violation[1] == inv):
             rep.machinery_failure(f"{cfg}: expected a violation of {inv}, got {r.violation or r.error}")
     behs = [b for b in ws.parse_behaviours(mc.out)]
-    if len(behs) < 50:
+    if len(behs) < 400:
         rep.machinery_failure(f"TLC exported {len(behs)} behaviours of XpmAdopt")
         return
     cases = [{"out": b["out"], "start": b["hist"][0], "plan": adopt.plan_of(b["hist"]), "want": b["decision"], "labels": adopt.labels_of(b["hist"])} for b in behs]
